@@ -7,7 +7,7 @@
    i.e. the same vector as every layer-based backend. *)
 From Coq Require Import List Bool Arith ZArith Lia Ring.
 Require Import QG.Base.Res QG.Base.State QG.Base.Mat QG.Model.Backends QG.Model.Optimizer QG.Model.Sparse.
-Require Import QG.Proofs.BackendsSpec QG.Proofs.OptimizerSem QG.Proofs.OptimizerMain.
+Require Import QG.Proofs.BackendsSpec QG.Proofs.BackendsKron QG.Proofs.BackendsContract QG.Proofs.OptimizerSem QG.Proofs.OptimizerMain.
 Import ListNotations.
 
 Section Binary.
@@ -106,6 +106,20 @@ Proof.
   pose proof (items_wf n ls H) as W. rewrite Forall_forall in W. auto.
 Qed.
 
+(* the four facts about the items, bundled *)
+Theorem items_spec n ls : Forall (wf_layer n) ls ->
+  (forall psi, sem (map den (items_of_layers ls)) psi = layers_sem ls psi) /\
+  Forall (wf_in n) (items_of_layers ls) /\
+  Forall (wf_item R n) (concat (map (layer_items 0) ls)) /\
+  (1 <= n -> ls <> [] -> items_of_layers ls <> []).
+Proof.
+  intros H. split; [|split; [|split]].
+  - intros psi. apply items_sem.
+  - now apply items_wf.
+  - now apply spec_items_wf.
+  - intros Hn Hne. now apply (items_ne n).
+Qed.
+
 (* C02's optimizer (any level 0..4, as run by BinaryBackend at level 4 and by the circuit classes) keeps layers_sem *)
 Theorem optimize_layers level n ls : level <= 4 -> Forall (wf_layer n) ls ->
   exists out, optimize mat mmul mkron mid2 mid4 level n (items_of_layers ls) = Ok out /\
@@ -142,6 +156,18 @@ Corollary binary_same_vector n ls psi o1 : 1 <= n -> ls <> [] -> Forall (wf_laye
 Proof.
   intros Hn Hne H S1. destruct (binary_agrees n ls psi Hn Hne H) as (o2 & E & S2).
   exists o2. split; [exact E|]. eapply state_eq_trans; [exact S1 | apply state_eq_sym, S2].
+Qed.
+
+(* in particular the same vector as StandardBackend (std_spec); likewise for the other layer-based backends *)
+Theorem binary_agrees_std n ls psi : 1 <= n -> ls <> [] -> Forall (wf_layer n) ls ->
+  exists o2, bin n (items_of_layers ls) psi = Ok o2 /\ state_eq n o2 (layers_sem ls psi) /\
+    exists o1, std R rI radd rmul n ls psi = Ok (OutVec o1) /\ state_eq n o1 o2.
+Proof.
+  intros Hn Hne H.
+  destruct (std_spec R rO rI radd rmul rsub ropp Rth n ls psi Hn Hne H) as (o1 & E1 & S1).
+  destruct (binary_agrees n ls psi Hn Hne H) as (o2 & E2 & S2).
+  exists o2. split; [exact E2|]. split; [exact S2|]. exists o1. split; [exact E1|].
+  eapply state_eq_trans; [exact S1 | apply state_eq_sym, S2].
 Qed.
 End WithBackend.
 
